@@ -262,7 +262,7 @@ def gen_ahb_case(rng, max_keys):
     edge = rng.random() < 0.3  # keys from the ends of the ranges: repeatability constraints 2000-2499 are requirement constraints like any other
 
     def cond():
-        pools = G.Pools(rc=["1", "2222", "2499"] if edge else ["1", "2", "3"], hint=["501", "502"], fc=["901", "902"])
+        pools = G.Pools(rc=["1", "007", "2499"] if edge else ["1", "2", "3"], hint=["501", "502"], fc=["0901", "902"] if edge else ["901", "902"])
         if rng.random() < 0.15:
             return G.gen_neutral_only(rng, rng.randint(1, 2), pools, max_leaves=4)
         return G.gen_eval(rng, rng.randint(0, 2), pools, max_leaves=5)
